@@ -140,7 +140,8 @@ CHECKS = {
     "C08": dict(engine="interpreter nodes", cat="exploration", ref="DESIGN.md section 3 (C08)",
                 technique="simulation of the sources of nondeterminism joblib.hash must be immune to: several fresh "
                           "interpreters with seeded PYTHONHASHSEED values and seeded construction histories (insertion "
-                          "order, insert-and-delete, equal-but-distinct strings) hashing the same abstract values",
+                          "order, insert-and-delete, one shared str / bytes object versus equal distinct objects per "
+                          "occurrence) hashing the same abstract values",
                 text="All nodes x histories must agree on the md5 and sha1 digest of every generated value; generated "
                      "near-collision pairs (one leaf or container type changed) must get different digests (sampling).",
                 note="Values without aliased mutable sub-objects; elements of one set / keys of one dict are pairwise "
